@@ -21,6 +21,7 @@ import NV.Common.Proto
 import NV.C04.Model
 import NV.C04.Sizes
 import NV.C04.MapBook
+import NV.C04.Save
 import NV.C04.Spec
 
 namespace NV.C04
@@ -136,77 +137,120 @@ def andThen (r : SzR) (k : Nat → SzR) : SzR :=
 
 def decLen (n : Int) : Nat := (toString n).length
 
+/-- a string of n characters built by the LPC side with repeat_string ("x", n) -/
+def strOf (l : Limits) (n : Int) : SzR := repeatString 1 n l.maxString
+
+/-- argument lists of the right length (anything else is a malformed command) -/
+def ar1 (f : Int → SzR) : List Int → Option SzR
+  | [a] => some (f a)
+  | _ => none
+def ar2 (f : Int → Int → SzR) : List Int → Option SzR
+  | [a, b] => some (f a b)
+  | _ => none
+def ar3 (f : Int → Int → Int → SzR) : List Int → Option SzR
+  | [a, b, c] => some (f a b c)
+  | _ => none
+
+/-- a = ([ i : i ]) for i < c1; b has the keys c1-common .. c1-common+c2-1: the nodes of a with a value in that range stay -/
+def szComposeBody (l : Limits) (c1 c2 common : Int) : SzR :=
+  andThen (mapInsertMany 0 c1.toNat l.maxMapping) fun x => andThen (mapInsertMany 0 c2.toNat l.maxMapping) fun y =>
+    composeMapping x ((min (x : Int) ((x : Int) - common + y)) - (max 0 ((x : Int) - common))).toNat
+
 /-- the size decision(s) behind one `sz` command; mirrors harness/mudlib/c04/sizes.c -/
-def szCmd (l : Limits) (ctor : String) (a : List Int) : Option SzR :=
-  let str (n : Int) : SzR := repeatString 1 n l.maxString
-  match ctor, a with
-  | "allocate", [n] => some (allocateArray n l.maxArray)
-  | "aggregate", [n] => some (aggregateArray n.toNat l.maxArray)
-  | "add_array", [x, y] =>
-    some (andThen (allocateArray x l.maxArray) fun p => andThen (allocateArray y l.maxArray) fun r =>
-      addArray p r l.maxArray)
-  | "add_array_self", [x] => some (andThen (allocateArray x l.maxArray) fun p => addArray p p l.maxArray)
-  | "slice", [n, lo, hi] => some (andThen (allocateArray n l.maxArray) fun p => sliceArray p lo hi)
-  | "explode", [pieces] =>
+def szCmdC (l : Limits) : Ctor → List Int → Option SzR
+  | .allocate => ar1 fun n => allocateArray n l.maxArray
+  | .aggregate => ar1 fun n => aggregateArray n.toNat l.maxArray
+  | .add_array => ar2 fun x y => andThen (allocateArray x l.maxArray) fun p => andThen (allocateArray y l.maxArray) fun r =>
+      addArray p r l.maxArray
+  | .add_array_self => ar1 fun x => andThen (allocateArray x l.maxArray) fun p => addArray p p l.maxArray
+  | .slice => ar3 fun n lo hi => andThen (allocateArray n l.maxArray) fun p => sliceArray p lo hi
+  | .explode =>
     -- the string "a,a,...,a" is built with repeat_string and +
-    some (if pieces ≤ 0 then explodeArray 0 l.maxArray
+    ar1 fun pieces => if pieces ≤ 0 then explodeArray 0 l.maxArray
           else andThen (repeatString 2 (pieces - 1) l.maxString) fun s => andThen (stringJoin s 1 l.maxString) fun _ =>
-            explodeArray pieces.toNat l.maxArray)
-  | "explode0", [chars] => some (andThen (str chars) fun s => explodeArray s l.maxArray)
-  | "allocate_buffer", [n] => some (allocateBuffer n l.maxBuffer)
-  | "add_buffer", [x, y] =>
-    some (andThen (allocateBuffer x l.maxBuffer) fun p => andThen (allocateBuffer y l.maxBuffer) fun r =>
-      addBuffer p r l.maxBuffer)
-  | "map_insert", [count, isNew] =>
-    some (andThen (mapInsertMany 0 count.toNat l.maxMapping) fun c => mapInsert c (isNew != 0) l.maxMapping)
-  | "map_aggregate", [n] => some (mapAggregate n.toNat l.maxMapping)
-  | "map_add", [c1, c2, common] =>
-    some (andThen (mapInsertMany 0 c1.toNat l.maxMapping) fun x => andThen (mapInsertMany 0 c2.toNat l.maxMapping) fun y =>
-      mapAdd x y common.toNat l.maxMapping)
-  | "join", [x, y] => some (andThen (str x) fun p => andThen (str y) fun r => stringJoin p r l.maxString)
-  | "join_eq", [x, y] => some (andThen (str x) fun p => andThen (str y) fun r => stringJoin p r l.maxString)
-  | "join_self", [x, k] =>
+            explodeArray pieces.toNat l.maxArray
+  | .explode0 => ar1 fun chars => andThen (strOf l chars) fun s => explodeArray s l.maxArray
+  | .allocate_buffer => ar1 fun n => allocateBuffer n l.maxBuffer
+  | .add_buffer => ar2 fun x y => andThen (allocateBuffer x l.maxBuffer) fun p => andThen (allocateBuffer y l.maxBuffer) fun r =>
+      addBuffer p r l.maxBuffer
+  | .map_insert => ar2 fun count isNew => andThen (mapInsertMany 0 count.toNat l.maxMapping) fun c => mapInsert c (isNew != 0) l.maxMapping
+  | .map_aggregate => ar1 fun n => mapAggregate n.toNat l.maxMapping
+  | .map_add => ar3 fun c1 c2 common => andThen (mapInsertMany 0 c1.toNat l.maxMapping) fun x => andThen (mapInsertMany 0 c2.toNat l.maxMapping) fun y =>
+      mapAdd x y common.toNat l.maxMapping
+  | .join => ar2 fun x y => andThen (strOf l x) fun p => andThen (strOf l y) fun r => stringJoin p r l.maxString
+  | .join_eq => ar2 fun x y => andThen (strOf l x) fun p => andThen (strOf l y) fun r => stringJoin p r l.maxString
+  | .join_self =>
     -- s += s, k times
-    some (andThen (str x) fun p =>
-      (List.range k.toNat).foldl (fun acc _ => andThen acc fun n => stringJoin n n l.maxString) (.ok p))
-  | "join_num", [x, n] => some (andThen (str x) fun p => stringJoin p (decLen n) l.maxString)
-  | "num_join", [n, y] => some (andThen (str y) fun r => stringJoin r (decLen n) l.maxString)
-  | "repeat", [len, count] => some (andThen (str len) fun p => repeatString p count l.maxString)
-  | "implode", [n, m, d] =>
+    ar2 fun x k => andThen (strOf l x) fun p =>
+      (List.range k.toNat).foldl (fun acc _ => andThen acc fun n => stringJoin n n l.maxString) (.ok p)
+  | .join_num => ar2 fun x n => andThen (strOf l x) fun p => stringJoin p (decLen n) l.maxString
+  | .num_join => ar2 fun n y => andThen (strOf l y) fun r => stringJoin r (decLen n) l.maxString
+  | .repeat_ => ar2 fun len count => andThen (strOf l len) fun p => repeatString p count l.maxString
+  | .implode =>
     -- (the LPC side fills a[0..n-1]: when the 16-bit size field wrapped, sizeof (a) < n and the fill loop errors)
-    some (andThen (allocateArray n l.maxArray) fun cnt => andThen (str m) fun len => andThen (str d) fun dl =>
-      if (cnt : Int) != n then .err else implodeString (cnt * len) cnt dl l.maxString)
-  | "replace", [x, y, r] =>
-    some (andThen (str x) fun p => andThen (repeatString 2 y l.maxString) fun q =>
-      andThen (stringJoin p q l.maxString) fun _ => andThen (str r) fun rl =>
-        replaceFamily p (q / 2) rl l.maxString.toNat)
+    ar3 fun n m d => andThen (allocateArray n l.maxArray) fun cnt => andThen (strOf l m) fun len => andThen (strOf l d) fun dl =>
+      if (cnt : Int) != n then .err else implodeString (cnt * len) cnt dl l.maxString
+  | .replace => ar3 fun x y r => andThen (strOf l x) fun p => andThen (repeatString 2 y l.maxString) fun q =>
+      andThen (stringJoin p q l.maxString) fun _ => andThen (strOf l r) fun rl =>
+        replaceFamily p (q / 2) rl l.maxString.toNat
+  | .replace1 =>
+    -- one character pattern: x characters are copied one by one, then y replacements of r characters, each step guarded
+    ar3 fun x y r => andThen (strOf l x) fun p => andThen (strOf l y) fun q => andThen (stringJoin p q l.maxString) fun _ =>
+      andThen (strOf l r) fun rl =>
+        replaceFinish l.maxString.toNat 0
+          (replaceRun l.maxString.toNat (List.replicate p RStep.copy1 ++ List.replicate q (RStep.repl rl)) 0)
   -- copies and parts of operands (mirrors harness/mudlib/c04/sizes.c)
-  | "copy_array", [n] => some (andThen (allocateArray n l.maxArray) sameSize)
-  | "copy_mapping", [n] => some (andThen (mapInsertMany 0 n.toNat l.maxMapping) sameSize)
-  | "sort_array", [n] => some (andThen (allocateArray n l.maxArray) sameSize)
-  | "map_array", [n] => some (andThen (allocateArray n l.maxArray) sameSize)
-  | "lower_case", [n] => some (andThen (str n) sameSize)
-  | "filter_array", [n, kept] => some (andThen (allocateArray n l.maxArray) fun a => partOf a kept.toNat)
-  | "unique_array", [n, groups] =>
-    some (andThen (allocateArray n l.maxArray) fun a => partOf a (if groups ≤ 0 then a else groups.toNat))
-  | "array_sub", [n, k] =>
-    some (andThen (allocateArray n l.maxArray) fun a => andThen (allocateArray k l.maxArray) fun b => partOf a (a - b))
-  | "array_and", [n, k] =>
-    some (andThen (allocateArray n l.maxArray) fun a => andThen (allocateArray k l.maxArray) fun b => partOf a b)
-  | "filter_mapping", [n, kept] => some (andThen (mapInsertMany 0 n.toNat l.maxMapping) fun c => partOf c kept.toNat)
-  | "map_mapping", [n] => some (andThen (mapInsertMany 0 n.toNat l.maxMapping) sameSize)
-  | "keys", [n] => some (andThen (mapInsertMany 0 n.toNat l.maxMapping) fun c => mapKeys c l.maxArray)
-  | "values", [n] => some (andThen (mapInsertMany 0 n.toNat l.maxMapping) fun c => mapKeys c l.maxArray)
-  | "allocate_mapping", [n] => some (allocateMapping n)
-  | "sprintf_pad", [w, n] =>
+  | .copy_array => ar1 fun n => andThen (allocateArray n l.maxArray) sameSize
+  | .copy_mapping => ar1 fun n => andThen (mapInsertMany 0 n.toNat l.maxMapping) sameSize
+  | .sort_array => ar1 fun n => andThen (allocateArray n l.maxArray) sameSize
+  | .map_array => ar1 fun n => andThen (allocateArray n l.maxArray) sameSize
+  | .lower_case => ar1 fun n => andThen (strOf l n) sameSize
+  | .filter_array => ar2 fun n kept => andThen (allocateArray n l.maxArray) fun a => partOf a kept.toNat
+  | .unique_array => ar2 fun n groups => andThen (allocateArray n l.maxArray) fun a => partOf a (if groups ≤ 0 then a else groups.toNat)
+  | .array_sub => ar2 fun n k => andThen (allocateArray n l.maxArray) fun a => andThen (allocateArray k l.maxArray) fun b => partOf a (a - b)
+  | .array_and => ar2 fun n k => andThen (allocateArray n l.maxArray) fun a => andThen (allocateArray k l.maxArray) fun b => partOf a b
+  | .filter_mapping => ar2 fun n kept => andThen (mapInsertMany 0 n.toNat l.maxMapping) fun c => partOf c kept.toNat
+  | .map_mapping => ar1 fun n => andThen (mapInsertMany 0 n.toNat l.maxMapping) sameSize
+  | .keys => ar1 fun n => andThen (mapInsertMany 0 n.toNat l.maxMapping) fun c => mapKeys c l.maxArray
+  | .values => ar1 fun n => andThen (mapInsertMany 0 n.toNat l.maxMapping) fun c => mapKeys c l.maxArray
+  | .allocate_mapping => ar1 fun n => allocateMapping n
+  -- round 4 (mirrors harness/mudlib/c04/sizes.c)
+  | .map_compose => ar3 (szComposeBody l)
+  | .map_compose_eq => ar3 (szComposeBody l)
+  | .save_array => ar1 fun n => andThen (allocateArray n l.maxArray) fun a => saveVariable (valZeros a) l.maxString
+  | .save_string => ar2 fun n esc => andThen (strOf l n) fun p => saveVariable (valString p (if esc != 0 then p else 0)) l.maxString
+  | .save_mapping => ar1 fun n => andThen (mapInsertMany 0 (min n.toNat 10) l.maxMapping) fun c => saveVariable (valSmallMap c) l.maxString
+  | .save_nested => ar1 fun d => saveVariable (valNested (d.toNat - 1)) l.maxString
+  | .copy_nested => ar1 fun d => if deepCopyOk 0 (valNested (d.toNat - 1)) then .ok (max d.toNat 1) else .err
+  | .restore_nested =>
+    -- the text "({" * (d-1) + "({})" + ",})" * (d-1) is built first; restore has no nesting limit of its own
+    ar1 fun d => andThen (repeatString 2 (d - 1) l.maxString) fun a => andThen (stringJoin a 4 l.maxString) fun b =>
+      andThen (repeatString 3 (d - 1) l.maxString) fun c => andThen (stringJoin b c l.maxString) fun _ => .ok (max d.toNat 1)
+  | .restore_array => ar1 fun n => andThen (repeatString 2 n l.maxString) fun a => andThen (stringJoin 2 a l.maxString) fun b =>
+      andThen (stringJoin b 2 l.maxString) fun _ => restoreArray n.toNat l.maxArray
+  | .restore_mapping =>
+    -- s = "(["; s += i + ":1," for every i; s + "])"
+    ar1 fun n => andThen ((List.range n.toNat).foldl (fun acc (i : Nat) => andThen acc fun len =>
+              andThen (stringJoin (decLen (i : Int)) 3 l.maxString) fun piece => stringJoin len piece l.maxString) (.ok 2)) fun len =>
+            andThen (stringJoin len 2 l.maxString) fun _ => restoreMapping n.toNat l.maxMapping
+  | .regexp =>
+    -- `matched` of the elements are "a", the others "b"; flag & 2 selects the elements that do NOT match
+    ar3 fun n matched flag => andThen (allocateArray n l.maxArray) fun a =>
+      let hit := min matched.toNat a
+      matchRegexp (if flag.toNat / 2 % 2 = 1 then a - hit else hit) flag l.maxArray
+  | .reg_assoc => ar1 fun m => andThen (strOf l m) fun p => regAssoc p l.maxArray
+  | .sprintf_pad =>
     -- sprintf ("%*s", w, s): padded to the field width; the pad goes through the same bounded buffer
-    some (andThen (str n) fun p =>
+    ar2 fun w n => andThen (strOf l n) fun p =>
       -- no padding when the string fills the field: the string is the first chunk (any size, see sprintfAdd)
       if w.toNat ≤ p then andThen (sprintfAdd 0 p) fun r => sprintfFinish r l.maxString
-      else if w.toNat > ushrtMax then .err else sprintfFinish w.toNat l.maxString)
-  | "sprintf", [x, y] =>
-    some (andThen (str x) fun p => andThen (str y) fun q => andThen (sprintfAdd 0 p) fun real => andThen (sprintfAdd real q) fun r => sprintfFinish r l.maxString)
-  | _, _ => none
+      else if w.toNat > ushrtMax then .err else sprintfFinish w.toNat l.maxString
+  | .sprintf => ar2 fun x y => andThen (strOf l x) fun p => andThen (strOf l y) fun q => andThen (sprintfAdd 0 p) fun real => andThen (sprintfAdd real q) fun r => sprintfFinish r l.maxString
+
+def szCmd (l : Limits) (ctor : String) (a : List Int) : Option SzR :=
+  match Ctor.ofName ctor with
+  | some c => szCmdC l c a
+  | none => none
 
 /-- `i<key><n|o>` / `a<from>:<n>:<new>` -/
 def parseMapOp (t : String) : Option MapOp :=
@@ -215,6 +259,12 @@ def parseMapOp (t : String) : Option MapOp :=
   else if t.startsWith "a" then
     match (t.drop 1).toString.splitOn ":" with
     | [_, _, k] => k.toNat?.map MapOp.absorb
+    | _ => none
+  else if t.startsWith "c" then
+    -- c<lo>:<n>:<kept>   m *= ([ lo .. lo+n-1 ])        cs:<kept>   m *= m (every value is a key)
+    match (t.drop 1).toString.splitOn ":" with
+    | [_, _, k] => k.toNat?.map MapOp.compose
+    | ["s", k] => k.toNat?.map MapOp.compose
     | _ => none
   else none
 
